@@ -541,6 +541,14 @@ impl<T: Clone + Eq + Debug + Default> WrappedBlock<T> {
     fn flush(&mut self) -> Result<()> {
         self.flush_word(WhiteSpace::Normal)?;
         self.flush_line();
+        // A line holding only zero-width markers is not flushed (it has no text).  That can
+        // happen after a forced line break in overflow mode; keep the markers with the text
+        // they follow instead of dropping them.
+        if let Some(last) = self.text.last_mut() {
+            for element in self.line.remove_items() {
+                last.push(element);
+            }
+        }
         Ok(())
     }
 
